@@ -281,7 +281,7 @@ def run(ctx):
     quick = ctx.quick
     rng = ctx.rng
     nmax = 5 if quick else 7
-    budget = 40000 if quick else 1000000  # G ** nodes bound for the brute force
+    budget = 40000 if quick else 2500000  # G ** nodes bound for the brute force
     ctx.rule = (
         "every unlabelled forest shape with <= %d clones (exhaustive over shapes; sibling order, 1-3 data points per clone, grid size, "
         "1-%d samples and k/16 likelihood values drawn from the seeded generator), each built by create_root_node, by create_root_node + "
@@ -296,7 +296,7 @@ def run(ctx):
     cases = []
     for f in shapes:
         n = sum(_tsize(t) for t in f)
-        reps = 2 if quick else (3 if n <= 5 else 1)
+        reps = 2 if quick else (5 if n <= 5 else (3 if n == 6 else 2))
         for rep in range(reps):
             gmax = 8 if quick else 12
             gs = [g for g in range(2, gmax + 1) if g**n <= budget]
@@ -411,7 +411,7 @@ def _kron_full(a, b):
     return [(P >> (i * bits)) & mask for i in range(n)]
 
 
-FFT_NOISE = 5e-15  # assumed bound on the absolute error of one fftconvolve entry, in units of ||a||_2 ||b||_2
+FFT_NOISE = 1e-15  # assumed bound on the absolute error of one fftconvolve entry, in units of ||a||_2 ||b||_2
 EXP_LOG = 1e-13  # relative error of one exp/log round trip of a log-domain value (|log| up to a few hundred)
 
 
@@ -504,6 +504,10 @@ def fft_stream(ctx):
                     ex_f = np.array([float(e) for e in exact])
                     err = S_e / G + EXP_LOG * ex_f
                     lin = np.exp(obs)
+                    # information only: the literal reading "above 1e-6 of the (truncated) row's own peak"
+                    lit = ex_f * 1e6 >= ex_f.max()
+                    ctx.extra["fft_info_worst_rel_error_above_1e-6_of_truncated_row_peak"] = max(
+                        ctx.extra.get("fft_info_worst_rel_error_above_1e-6_of_truncated_row_peak", 0.0), float(np.max(np.abs(lin[lit] - ex_f[lit]) / ex_f[lit])))
                     for k in range(G):
                         n_all += 1
                         d = abs(lin[k] - ex_f[k])
@@ -528,79 +532,110 @@ def fft_stream(ctx):
 
 
 # ------------------------------------------------------------------ thorough: extreme dynamic range (direct path)
-def extreme_stream(ctx):
-    """two or three leaf clones under the virtual root with values spanning hundreds of orders of magnitude.
-    Window (as the property states it): a convolution entry whose exact value is >= 1e-100 of the product of its two
-    arguments' peaks is reproduced to 1e-9; below it the reported value is finite and not below the exact one
-    (up to float rounding 1e-9 relative plus the float underflow granularity G * 2.3e-308 of the peak product)."""
-    from phyclone.tree import Tree
+FLOOR = Fraction(1, 10**100)  # log_D[log_D <= 0] = 1e-100, in units of the product of the two arguments' peaks
+UNDERFLOW = Fraction(1, 10**306)  # products / exponentials below ~2.3e-308 of the peaks are lost by float arithmetic
 
+
+def _flog(fr):
+    return math.log(fr.numerator) - math.log(fr.denominator)
+
+
+def _bounds(tree, name, values, s, G):
+    """exact vector of a clone (name=None: the virtual root) and absolute bounds (up, low) such that float arithmetic
+    with the 1e-100 floor reports a value in [exact - low, exact + up] up to relative rounding; children are taken in
+    the order the tree hands them to compute_log_D (the exact value is order independent, the floor is not)."""
+    if name is None:
+        p = [Fraction(1, G)] * G
+        kids = tree.roots
+    else:
+        p = []
+        for x in range(G):
+            v = Fraction(1, G)
+            for d in tree.get_data(name):
+                v *= values[d.idx][s][x]
+            p.append(v)
+        kids = tree.get_children(name)
+    zero = [Fraction(0)] * G
+    if not kids:
+        return p, zero, zero
+    ch = [_bounds(tree, c, values, s, G) for c in kids]
+
+    def conv(a, b):
+        return [sum(a[j] * b[k - j] for j in range(k + 1)) for k in range(G)]
+
+    def stage(A, B):
+        (a, ua, la), (b, ub, lb) = A, B
+        ex = conv(a, b)
+        hi = conv([x + u for x, u in zip(a, ua)], [x + u for x, u in zip(b, ub)])
+        lo = conv([max(x - l, 0) for x, l in zip(a, la)], [max(x - l, 0) for x, l in zip(b, lb)])
+        pk = max(x + u for x, u in zip(a, ua)) * max(x + u for x, u in zip(b, ub))
+        up = [h - e + FLOOR * pk for h, e in zip(hi, ex)]
+        low = [e - l + 3 * G * UNDERFLOW * pk for e, l in zip(ex, lo)]
+        return ex, up, low
+
+    if len(ch) == 1:
+        D = ch[0]
+    else:
+        D = stage(ch[0], ch[1])
+        for j in range(2, len(ch)):
+            D = stage(ch[j], D)
+    out = []
+    for comp in D:
+        run, acc = Fraction(0), []
+        for k in range(G):
+            run += comp[k]
+            acc.append(p[k] * run)
+        out.append(acc)
+    return tuple(out)
+
+
+def extreme_stream(ctx):
+    """small forests whose likelihood values span hundreds of orders of magnitude (exact powers of ten).
+    What the property states for the direct path, made checkable: the reported value lies between
+    exact - (float underflow granularity) and exact + (1e-100 of the peak product, per convolution entry, propagated
+    exactly through the later convolutions / running sums / products); an entry is *inside the window* when both
+    slacks are below 1e-10 of the exact value, and there the reported value must agree to 1e-9; every entry is finite."""
     rng = ctx.rng
     n_in = n_out = 0
     worst_in = 0.0
-    for rep in range(300):
-        G = rng.randint(3, 12)
-        nkids = rng.choice((2, 2, 3))
-        exps = [[-rng.choice((0, 0, 1, 5, 20, 40, 60, 90, 120, 150, 200, 280)) for _ in range(G)] for _ in range(nkids)]
-        # values are exact powers of ten as Fractions; floats are the nearest doubles (relative 1e-16)
+    shapes = []
+    for n in range(2, 5):
+        shapes += [f for f in _forests(n) if shape_sig(f)[1] >= 2]
+    for rep in range(400):
+        f = rng.choice(shapes)
+        G = rng.randint(3, 10)
+        roots, npts = assign_points(rng, f, 1)
+        exps = [[-rng.choice((0, 0, 0, 1, 5, 20, 40, 60, 90, 120, 150, 200, 280)) for _ in range(G)] for _ in range(npts)]
         values = [[[Fraction(1, 10 ** (-e)) for e in row]] for row in exps]
         data = make_data(values)
-        t = Tree((1, G))
-        for i in range(nkids):
-            t.create_root_node(children=[], data=[data[i]])
+        t = build(roots, data, (1, G), False, rng)
         obs = np.array(t.data_log_likelihood, dtype=float)[0]
-        key = "C02:Tree.data_log_likelihood:extreme_range:kids=%d" % nkids
-        replay = {"grid": G, "children": nkids, "log10_values": exps}
+        sig = shape_sig(f)
+        key = "C02:Tree.data_log_likelihood:extreme_range:kids=%d" % sig[1]
+        replay = {"roots": roots, "grid": G, "log10_values": exps}
         ctx.case(key=("extreme", rep), nontrivial=True)
-        ctx.count("extreme_kids=%d" % nkids)
+        ctx.count("extreme_max_children=%d" % sig[1])
         if not np.all(np.isfinite(obs)):
             ctx.fail(key + ":nonfinite", "non-finite entry", replay)
             continue
-        # the tree orders children as successors() does; the exact D is order independent, the floor window is not,
-        # so evaluate cleanliness for the order the tree actually used
-        order = [sorted(d.idx for d in t.get_data(c))[0] for c in t.roots]
-        p = [[Fraction(1, G) * values[i][0][x] for x in range(G)] for i in order]
-
-        def conv(a, b):
-            return [sum(a[j] * b[k - j] for j in range(k + 1)) for k in range(G)]
-
-        def stage(a, b, clean_a, clean_b):
-            ex = conv(a, b)
-            pk = max(a) * max(b)
-            state = []
-            for k in range(G):
-                inputs_clean = all(clean_a[: k + 1]) and all(clean_b[: k + 1])
-                r = ex[k] / pk
-                if inputs_clean and r >= Fraction(1, 10**95):
-                    state.append(True)
-                else:
-                    state.append(False)
-            return ex, state, pk
-
-        allc = [True] * G
-        D, clean, pk = stage(p[1], p[0], allc, allc)
-        for j in range(2, nkids):
-            D, clean, pk = stage(p[j], D, allc, clean)
-        run = 0
+        ex, up, low = _bounds(t, None, values, 0, G)
         for k in range(G):
-            run += D[k]
-            exact = Fraction(1, G) * run
-            if all(clean[: k + 1]):
+            lex = _flog(ex[k])
+            if obs[k] > _flog(ex[k] + up[k]) + 1e-9:
+                ctx.fail(key + ":above_floor_bound", "entry %d: reported log %.12g exceeds log(exact + floor slack) = %.12g (exact log %.12g)" % (k, obs[k], _flog(ex[k] + up[k]), lex), replay)
+                break
+            if ex[k] - low[k] > 0 and obs[k] < _flog(ex[k] - low[k]) - 1e-9:
+                ctx.fail(key + ":below_exact", "entry %d: reported log %.12g is below the exact log %.12g" % (k, obs[k], lex), replay)
+                break
+            if (up[k] + low[k]) * 10**10 <= ex[k]:
                 n_in += 1
-                e = abs(obs[k] - (math.log(exact.numerator) - math.log(exact.denominator)))  # log-domain, values may be < 1e-308
+                e = abs(obs[k] - lex)
                 worst_in = max(worst_in, e)
                 if e > 1e-9:
-                    ctx.fail(key, "entry %d inside the floor window: log value %.12g, exact %.12g" % (k, obs[k], math.log(exact.numerator) - math.log(exact.denominator)), replay)
+                    ctx.fail(key, "entry %d inside the floor window: log value %.12g, exact %.12g" % (k, obs[k], lex), replay)
                     break
             else:
                 n_out += 1
-                lex = math.log(exact.numerator) - math.log(exact.denominator)
-                if obs[k] < lex - 1e-9 * max(1.0, abs(lex)) - 1e-6:
-                    # allow the underflow granularity: reported_norm >= exact_norm - G * 2.3e-308
-                    lpk = math.log(pk.numerator) - math.log(pk.denominator) - math.log(G)
-                    if lex - lpk > -690:  # exact normalised value representable: a real shortfall
-                        ctx.fail(key + ":below_exact", "entry %d below the floor window: reported log %.12g < exact log %.12g" % (k, obs[k], lex), replay)
-                        break
     ctx.extra["extreme_entries_in_window"] = n_in
     ctx.extra["extreme_entries_below_window"] = n_out
     ctx.extra["extreme_worst_log_error_in_window"] = worst_in
